@@ -137,9 +137,10 @@ class Game(AsyncMode):
             self._at_least_one_player_event.clear()
             self.request_player_add()
 
-        # Wait for player to be added before game can start
+        # Wait for player to be added before game can start (unless the game has been ended in the meantime)
         # TODO: Add timeout to wait
-        await self._at_least_one_player_event.wait()
+        if not self.ending:
+            await self._at_least_one_player_event.wait()
 
         await self.machine.events.post_async('game_started')
         '''event: game_started
@@ -485,6 +486,8 @@ class Game(AsyncMode):
         """
         self.ending = True
         self.end_ball()
+        # do not wait for a first player any longer (no player can be added to an ending game)
+        self._at_least_one_player_event.set()
 
     def _game_ending_completed(self, **kwargs):
         del kwargs
